@@ -85,14 +85,18 @@ type Leaf struct {
 	Path string `json:"path"`
 	Op   string `json:"op"`
 	V    Val    `json:"v"`
+	// when set, the connective is applied through Search.Operation with this operator string
+	Via string `json:"via,omitempty"`
 }
 
 type Query struct {
 	Leaves  []Leaf  `json:"leaves"`
 	Limit   *uint64 `json:"limit,omitempty"`
 	Reverse bool    `json:"reverse,omitempty"`
-	// collect | assign | one | assignone | len
+	// collect | assign | one | assignone | len | expects | expectszn | assignunique
 	Consumer string `json:"consumer,omitempty"`
+	// expects / expectszn: the expected count is the number of matches plus this
+	Expect int `json:"expect,omitempty"`
 }
 
 func (q Query) String() string {
